@@ -5,7 +5,7 @@ import HtmlVerif.Model.Json
 
 namespace HtmlVerif
 
-def hasKey (k : Str) (d : List (Str × Str)) : Bool := d.any fun kv => kv.1 == k
+def sdHasKey (k : Str) (d : List (Str × Str)) : Bool := d.any fun kv => kv.1 == k
 
 def kSrc : Str := ['s', 'r', 'c']
 def kContent : Str := ['c', 'o', 'n', 't', 'e', 'n', 't']
@@ -13,8 +13,8 @@ def kContent : Str := ['c', 'o', 'n', 't', 'e', 'n', 't']
 /-- what `HTMLDependency.__init__` guarantees of every dependency object: each script has `src`, each
     stylesheet has `href` (and `rel`, which the constructor adds), each meta has `name` and `content` -/
 def SDep.wellFormed (d : SDep) : Bool :=
-  d.info.script.all (hasKey kSrc)
-    && d.info.stylesheet.all (fun x => hasKey kHref x && hasKey kRel x)
-    && d.info.metas.all (fun x => hasKey kName x && hasKey kContent x)
+  d.info.script.all (sdHasKey kSrc)
+    && d.info.stylesheet.all (fun x => sdHasKey kHref x && sdHasKey kRel x)
+    && d.info.metas.all (fun x => sdHasKey kName x && sdHasKey kContent x)
 
 end HtmlVerif
